@@ -388,6 +388,31 @@ def r4(ctx):
         ctx.ob('C13.R4', mt, mt.body, ok, 'matcher compares inclusively', '%s' % ks[:4])
 
 
+def r6(ctx):
+    ctx.rule('C13.R6', 'Message::isAvailable is exactly "no condition, or the condition holds": its result is true iff m_condition '
+             'is null or m_condition->isTrue() (virtual, so combined conditions evaluate all their parts); no other state '
+             'decides availability', minimum=1, star=True)
+    fb = ctx.fb
+    fn = fb.fn('ebusd::Message::isAvailable')
+    ctx.touch(fn)
+    n = 0
+    for r in fn.all('ReturnStmt'):
+        rv = fn.nodes[r].get('val')
+        if rv is None:
+            continue
+        n += 1
+        dnf = facts.implied(fn, rv, True)
+        norm = set()
+        for conj in dnf:
+            ks = frozenset(facts.atom_key(fn, a) for a in conj)
+            norm.add(frozenset(k for k in ks if k != ('(this.m_condition == #0)', False) and k != ('this.m_condition', True)))
+        want = {frozenset([('(this.m_condition == #0)', True)]), frozenset([('this.m_condition.isTrue()', True)])}
+        alt = {frozenset([('this.m_condition', False)]), frozenset([('this.m_condition.isTrue()', True)])}
+        ok = norm in (want, alt) and not fn.atoms(r)
+        ctx.ob('C13.R6', fn, r, ok, 'isAvailable result', 'true iff %s' % sorted(sorted(c) for c in norm))
+    if n != 1:
+        raise AnalysisBroken('C13.R6: Message::isAvailable has %d value returns' % n)
+
 def run(ctx):
     r1(ctx)
     r2(ctx)
@@ -397,3 +422,4 @@ def run(ctx):
     ctx.borrow(c10.r1, {'C10.R1': 'C13.R5'},
                'a numeric condition reads the referenced field through the numeric DataFieldSet::read; it must locate the '
                'field at the same byte/bit position as the length computation and the text decoder do')
+    r6(ctx)
